@@ -325,6 +325,11 @@ func (c *Ctx) guard(f *ssa.Function, env Env, chk *GCheck, events func(in ssa.In
 	c.Analysed(f)
 	ss := c.sites(f, env, chk, depth)
 	cut := c.pruned(f, env)
+	if depth == 0 {
+		for e := range c.extraCut {
+			cut[e] = true
+		}
+	}
 	okVals := map[ssa.Value]bool{}
 	for _, s := range ss {
 		for _, e := range s.cut {
@@ -509,6 +514,9 @@ func (c *Ctx) GuardLoop(f *ssa.Function, env Env, chk *GCheck) (bool, []string, 
 		return false, []string{fmt.Sprintf("no check site of [%s] in %s", chk.Name, short(f.String()))}, 0
 	}
 	cut := c.pruned(f, env)
+	for e := range c.extraCut {
+		cut[e] = true
+	}
 	for _, s := range ss {
 		for _, e := range s.cut {
 			cut[e] = true
@@ -922,8 +930,29 @@ func (c *Ctx) descendSites(f *ssa.Function, env Env, chk, _ *GCheck, depth int) 
 
 // tableLoopEnvs returns, for every (array literal, element index) ranged over in f, env extended with the element's
 // field loads renamed to the paths of the values stored for that element.
+//
+// The ranged-over table may also be chosen by the path (`fields := []string{a, b}; if c { fields = []string{x, y} }`):
+// the ranged value is then a φ of literals. Each incoming edge is one alternative (alt) of the same group; an
+// alternative's environments are valid only on the paths that enter the φ along its edge (cut = the other edges).
+type tableEnv struct {
+	env   Env
+	cut   map[edge]bool
+	group ssa.Value
+	alt   int
+}
+
 func (c *Ctx) tableLoopEnvs(f *ssa.Function, env Env) []Env {
 	var out []Env
+	for _, te := range c.tableLoopEnvsAlt(f, env) {
+		if te.cut == nil {
+			out = append(out, te.env)
+		}
+	}
+	return out
+}
+
+func (c *Ctx) tableLoopEnvsAlt(f *ssa.Function, env Env) []tableEnv {
+	var out []tableEnv
 	for _, b := range f.Blocks {
 		for _, in := range b.Instrs {
 			sl, ok := in.(*ssa.Slice)
@@ -981,70 +1010,98 @@ func (c *Ctx) tableLoopEnvs(f *ssa.Function, env Env) []Env {
 				fld int
 			}
 			var reads []read
+			// the value ranged over: the slice itself, or a φ that selects it
+			type ranged struct {
+				v   ssa.Value
+				cut map[edge]bool
+				alt int
+			}
+			rs := []ranged{{v: sl}}
 			for _, r := range *sl.Referrers() {
-				ia, isIA := r.(*ssa.IndexAddr)
-				if !isIA || c.Path(ia.Index, nil) != "ι" {
+				phi, isPhi := r.(*ssa.Phi)
+				if !isPhi {
 					continue
 				}
-				for _, rr := range *ia.Referrers() {
-					switch y := rr.(type) {
-					case *ssa.UnOp:
-						if y.Op != token.MUL {
-							continue
+				for i, e := range phi.Edges {
+					if e != ssa.Value(sl) {
+						continue
+					}
+					cut := map[edge]bool{}
+					for j, p := range phi.Block().Preds {
+						if j != i {
+							cut[edge{from: p, to: phi.Block()}] = true
 						}
-						if _, isStruct := y.Type().Underlying().(*types.Struct); !isStruct {
-							reads = append(reads, read{y, -1})
-							continue
-						}
-						for _, r3 := range *y.Referrers() {
-							switch z := r3.(type) {
-							case *ssa.Field:
-								reads = append(reads, read{z, z.Field})
-							case *ssa.Store:
-								// the element copied into the range variable's own cell
-								la, isLA := z.Addr.(*ssa.Alloc)
-								if !isLA || z.Val != ssa.Value(y) {
-									continue
-								}
-								for _, r4 := range *la.Referrers() {
-									if fa, isFA := r4.(*ssa.FieldAddr); isFA {
-										for _, r5 := range *fa.Referrers() {
-											if ld, isLd := r5.(*ssa.UnOp); isLd && ld.Op == token.MUL {
-												reads = append(reads, read{ld, fa.Field})
+					}
+					rs = append(rs, ranged{v: phi, cut: cut, alt: i})
+				}
+			}
+			for _, rg := range rs {
+				reads = nil
+				for _, r := range *rg.v.Referrers() {
+					ia, isIA := r.(*ssa.IndexAddr)
+					if !isIA || c.Path(ia.Index, nil) != "ι" {
+						continue
+					}
+					for _, rr := range *ia.Referrers() {
+						switch y := rr.(type) {
+						case *ssa.UnOp:
+							if y.Op != token.MUL {
+								continue
+							}
+							if _, isStruct := y.Type().Underlying().(*types.Struct); !isStruct {
+								reads = append(reads, read{y, -1})
+								continue
+							}
+							for _, r3 := range *y.Referrers() {
+								switch z := r3.(type) {
+								case *ssa.Field:
+									reads = append(reads, read{z, z.Field})
+								case *ssa.Store:
+									// the element copied into the range variable's own cell
+									la, isLA := z.Addr.(*ssa.Alloc)
+									if !isLA || z.Val != ssa.Value(y) {
+										continue
+									}
+									for _, r4 := range *la.Referrers() {
+										if fa, isFA := r4.(*ssa.FieldAddr); isFA {
+											for _, r5 := range *fa.Referrers() {
+												if ld, isLd := r5.(*ssa.UnOp); isLd && ld.Op == token.MUL {
+													reads = append(reads, read{ld, fa.Field})
+												}
 											}
 										}
 									}
 								}
 							}
-						}
-					case *ssa.FieldAddr:
-						for _, r3 := range *y.Referrers() {
-							if ld, isLd := r3.(*ssa.UnOp); isLd && ld.Op == token.MUL {
-								reads = append(reads, read{ld, y.Field})
+						case *ssa.FieldAddr:
+							for _, r3 := range *y.Referrers() {
+								if ld, isLd := r3.(*ssa.UnOp); isLd && ld.Op == token.MUL {
+									reads = append(reads, read{ld, y.Field})
+								}
 							}
 						}
 					}
 				}
-			}
-			if len(reads) == 0 {
-				continue
-			}
-			for k := int64(0); k < arr.Len(); k++ {
-				e := Env{}
-				for kk, vv := range env {
-					e[kk] = vv
+				if len(reads) == 0 {
+					continue
 				}
-				okAll := true
-				for _, rd := range reads {
-					sv, has := stores[k][rd.fld]
-					if !has {
-						okAll = false
-						break
+				for k := int64(0); k < arr.Len(); k++ {
+					e := Env{}
+					for kk, vv := range env {
+						e[kk] = vv
 					}
-					e[rd.v] = c.Path(sv, env)
-				}
-				if okAll {
-					out = append(out, e)
+					okAll := true
+					for _, rd := range reads {
+						sv, has := stores[k][rd.fld]
+						if !has {
+							okAll = false
+							break
+						}
+						e[rd.v] = c.Path(sv, env)
+					}
+					if okAll {
+						out = append(out, tableEnv{env: e, cut: rg.cut, group: rg.v, alt: rg.alt})
+					}
 				}
 			}
 		}
@@ -1073,20 +1130,64 @@ func loopBypassed(f *ssa.Function, l *loop) bool {
 
 // guardViaTable is the table-loop fallback of CheckGuard.
 func (c *Ctx) guardViaTable(f *ssa.Function, env Env, chk *GCheck) bool {
-	for _, e := range c.tableLoopEnvs(f, env) {
-		ok, _, n := c.GuardLoop(f, e, chk)
+	tes := c.tableLoopEnvsAlt(f, env)
+	holds := func(te tableEnv) bool {
+		c.extraCut = te.cut
+		defer func() { c.extraCut = nil }()
+		ok, _, n := c.GuardLoop(f, te.env, chk)
 		if !ok || n == 0 {
-			continue
+			return false
 		}
-		bypass := false
-		for _, s := range c.sites(f, e, chk, 0) {
+		for _, s := range c.sites(f, te.env, chk, 0) {
 			for _, l := range naturalLoops(f) {
 				if (l.blocks[s.instr.Block()] || l.insideBody(s.instr.Block())) && loopBypassed(f, l) {
-					bypass = true
+					return false
 				}
 			}
 		}
-		if !bypass {
+		return true
+	}
+	groups := map[ssa.Value]map[int]bool{}
+	var order []ssa.Value
+	for _, te := range tes {
+		if te.cut == nil {
+			if holds(te) {
+				return true
+			}
+			continue
+		}
+		if groups[te.group] == nil {
+			groups[te.group] = map[int]bool{}
+			order = append(order, te.group)
+		}
+		if !groups[te.group][te.alt] && holds(te) {
+			groups[te.group][te.alt] = true
+		}
+	}
+	// a table chosen by the path: every alternative meets the obligation — through one of its elements, or because the
+	// paths that choose it have crossed a success edge already (the obligation does not concern that alternative)
+	for _, g := range order {
+		phi := g.(*ssa.Phi)
+		all := true
+		for i := range phi.Edges {
+			if groups[g][i] {
+				continue
+			}
+			cut := map[edge]bool{}
+			for j, p := range phi.Block().Preds {
+				if j != i {
+					cut[edge{from: p, to: phi.Block()}] = true
+				}
+			}
+			c.extraCut = cut
+			ok, _, _ := c.Guard(f, env, chk, nil)
+			c.extraCut = nil
+			if !ok {
+				all = false
+				break
+			}
+		}
+		if all {
 			return true
 		}
 	}
